@@ -382,3 +382,105 @@ def list_cases(rnd, q):
             s = rnd.choice([b"\n  ", b" ", b"\n", b"/*lead*/ ", b"\t"]) + s
         out.append((entry, s))
     return out
+
+
+def frag_correspondence(res, inputs, label):
+    """extracted fragment parser (Parse/ExprModel.v) on the real lexer's tokens vs ParseExpr: same tree (all fields, positions
+    included), same verdict; inputs outside the fragment (UNSUP) or not lexing are skipped and counted"""
+    inp = "\n".join(hexs(x) for x in inputs) + "\n"
+    toks = vlib.run_lines(vlib.HARNESS, ["expr-toks"], inp)
+    go = vlib.run_lines(vlib.HARNESS, ["expr-go"], inp)
+    md = vlib.run_lines(vlib.DRIVER, ["expr-model"], "\n".join(toks) + "\n")
+    st = {"ok": 0, "ok_with_rest": 0, "err": 0, "unsup": 0, "lexerr": 0, "fuel": 0}
+    bad = []
+    for x, g_, m in zip(inputs, go, md):
+        gm = g_.split(" => ", 1)[1]
+        mm = m.split(" => ", 1)[1]
+        if mm == "UNSUP":
+            st["unsup"] += 1
+            continue
+        if mm == "LEXERR":
+            st["lexerr"] += 1
+            continue
+        if mm == "FUEL":
+            st["fuel"] += 1
+            bad.append((x, gm[:200], mm))
+            continue
+        if gm.startswith("PANIC"):
+            bad.append((x, gm[:200], mm[:200]))
+            continue
+        nerr, dump = gm.split(" ", 1)
+        if mm.startswith("ERR"):
+            st["err"] += 1
+            if nerr == "0":
+                bad.append((x, gm[:300], mm))
+            continue
+        _, rest, mdump = mm.split(" ", 2)
+        if rest == "1":
+            st["ok"] += 1
+            if nerr != "0" or dump != mdump:
+                bad.append((x, gm[:400], mm[:400]))
+        else:
+            st["ok_with_rest"] += 1
+            if nerr == "0" or dump != mdump:
+                bad.append((x, gm[:400], mm[:400]))
+    res.obligation("correspondence %s: ParseExpr == extracted fragment model on %d inputs (%d compared)" % (label, len(inputs), st["ok"] + st["ok_with_rest"] + st["err"]),
+                   not bad, "\n".join("%r\n go:    %s\n model: %s" % b for b in bad[:3]))
+    res.extra.setdefault("fragment_correspondence", []).append(dict(st, label=label, inputs=len(inputs), disagreements=len(bad)))
+    return st, bad
+
+
+def frag_inputs(rnd, q):
+    g = gens.G(rnd, gens.gen_keywords())
+    ins = [s for s in gens.NEAR_MISS]
+    for _ in range(4000 if q else 80000):
+        t = gens.random_op_tree(rnd, rnd.randrange(1, 7))
+        ins.append(gens.t_spell(t).encode())
+    for _ in range(3000 if q else 60000):
+        ins.append(gens.mutate(rnd, gens.t_spell(gens.random_op_tree(rnd, rnd.randrange(1, 5))).encode()))
+    for _ in range(2000 if q else 40000):
+        ins.append(g.expr().encode())
+    for _ in range(1500 if q else 30000):
+        ins.append(gens.token_soup(rnd, rnd.randrange(1, 10)))
+    return ins
+
+
+def c07(res, st, std_coq):
+    std_coq(res, "C07", st, ("theories/GenChecks.v", "theories/Parse/RoundTrip.v"))
+    if not (st["go"] and st["driver"]):
+        return
+    rnd = random.Random(res.seed)
+    gen_check(res, ("printer_ok",))
+    q = res.tier == "quick"
+    cases = gens.precedence_cases(rnd, 3 if q else 4, 4000 if q else 100000)
+    inputs = [x for x, _ in cases]
+    # (1) the model is the code: fragment parser vs ParseExpr on the property's enumeration and on arbitrary fragment-ish inputs
+    frag_correspondence(res, inputs, "operator trees (<= %d operators, minimal and full spelling) + random deeper trees" % (3 if q else 4))
+    frag_correspondence(res, frag_inputs(rnd, q), "random/mutated fragment expressions, near-miss inputs, token soups")
+    # (2) the property on the implementation: grouping = the table's grouping; SQL() adds and drops no parenthesis
+    out = vlib.run_lines(vlib.HARNESS, ["expr-shape"], "\n".join(hexs(x) for x in inputs) + "\n")
+    nbad = 0
+    for (x, want), l in zip(cases, out):
+        body = l.split(" => ", 1)[1]
+        got, _, sqlhex = body.partition(" | ")
+        if got != want:
+            nbad += 1
+            if nbad <= 10:
+                res.violation("operator grouping differs from the GoogleSQL table", {"kind": "c07-shape", "entry": "ParseExpr", "input_hex": hexs(x), "expected": want[:400], "observed": got[:400]})
+            continue
+        sql = vlib.unhex(sqlhex.strip()) if sqlhex.strip() else b""
+        if sql.count(b"(") != x.count(b"("):
+            nbad += 1
+            if nbad <= 10:
+                res.violation("SQL() adds or drops a parenthesis", {"kind": "c07-paren", "entry": "ParseExpr", "input_hex": hexs(x), "sql": sql.decode(errors="replace")[:300]})
+    res.extra["shape_cases"] = len(cases)
+    res.extra["shape_failures"] = nbad
+    res.add_cases(len(cases), len(set(inputs)), [cases[7][0].decode() + "  ==>  " + cases[7][1], cases[len(cases) // 2][0].decode() + "  ==>  " + cases[len(cases) // 2][1]])
+    res.cov["rule"] = ("every expression tree with <= %d operator occurrences over the 20 binary operators, NOT, unary + - ~, field access, subscript, IS, IN, BETWEEN, "
+                       "in the spelling with minimal parentheses (by the table) and with a parenthesis around every operand, plus random deeper trees; for each: "
+                       "(i) ParseExpr's tree compared with the extracted Coq fragment parser run on the real lexer's tokens, (ii) ParseExpr's grouping compared "
+                       "with the grouping the table prescribes (computed by the generator, independent of parser.go), (iii) SQL() keeps the number of "
+                       "parentheses; distinct = distinct inputs" % (3 if q else 4))
+    res.assumptions += ["the round-trip theorem covers binary/unary/NOT/comparison operators, parentheses and primaries; IS, IN, BETWEEN, field access, subscript, "
+                        "tuples are in the executable model and its correspondence but not yet in the theorem (C07_..._partial in DESIGN.md)",
+                        "tokens are taken from the real lexer (lexer conformance is C13/C14); spell/lexer agreement is sampled by (ii)"]
